@@ -446,3 +446,297 @@ Corollary weight_spec_pos U p Wt u :
   WF U p -> in_range U p u = true ->
   length Wt = npts_of U p -> Forall (fun w => 0 < w) Wt -> 0 < weight_spec U p Wt u.
 Proof. apply weight_pos. Qed.
+
+(* ------------------------------------------------------------------ *)
+(* 9. the rational row is the rational specification                   *)
+(* ------------------------------------------------------------------ *)
+Theorem rbasis_row_none k j u : rbasis_row k None j u = basis_row k j u.
+Proof. unfold rbasis_row. destruct (basis_row k j u); reflexivity. Qed.
+
+Theorem rbasis_row_rat_spec k j u Wt :
+  WF (kvec k) (kdeg k) -> (j <= kdeg k)%nat -> kvalid1 k u = true ->
+  length Wt = knpts k -> Forall (fun w => 0 < w) Wt ->
+  exists r, rbasis_row k (Some Wt) j u = Ok r /\ length r = knpts k /\
+    forall i, (i < knpts k)%nat -> nth i r 0 == Rspec (kvec k) (kdeg k) Wt j i u.
+Proof.
+  intros W Hj Hv HL HW.
+  destruct (basis_row_spec k j u W Hj Hv) as (r & Hr & Hl & Hn).
+  assert (Hin : in_range (kvec k) (kdeg k) u = true) by (rewrite <- kvalid1_in_range; exact Hv).
+  unfold rbasis_row. rewrite Hr. cbn [bind]. unfold rat_row. cbv zeta.
+  set (D := qsum (map (fun i => nth i Wt 0 * Nspec (kvec k) (kdeg k) j i u) (seq 0 (knpts k)))).
+  assert (HD : dot r Wt == D).
+  { rewrite dot_correct.
+    rewrite (qsum_map2_seq (fun x y => x * y) 0 r Wt) by lia.
+    rewrite Hl. unfold D. apply qsum_map_ext. intros i Hi. apply in_seq in Hi.
+    rewrite (Hn i) by lia. ring. }
+  assert (HDpos : 0 < D).
+  { pose proof (weight_pos_deg (kvec k) (kdeg k) Wt u j W Hin Hj HL HW) as HP.
+    rewrite npts_of_knpts in HP. unfold D.
+    rewrite (qsum_map_ext _ (fun i => Nspec (kvec k) (kdeg k) j i u * nth i Wt 0))
+      by (intros i _; ring).
+    exact HP. }
+  destruct (Qeqb_spec (dot r Wt) 0) as [E|E]; [exfalso; rewrite HD in E; lra|].
+  eexists. split; [reflexivity|]. split.
+  - rewrite map2_length, HL, Hl. apply Nat.min_id.
+  - intros i Hi. rewrite (nth_map2 _ 0 0 0) by lia.
+    rewrite Qred_correct. unfold Rspec. rewrite npts_of_knpts. fold D.
+    rewrite (Hn i Hi), HD. unfold Qdiv. ring.
+Qed.
+
+(* ------------------------------------------------------------------ *)
+(* 10. C01: curve evaluation                                           *)
+(* ------------------------------------------------------------------ *)
+Section CurveEval.
+Variable c : curve.
+Variable P : list (list Q).   (* = list pt *)
+Variable d : nat.
+Hypothesis HP : cP c = Some P.
+Hypothesis W : WF (kvec (ckv c)) (cdeg c).
+Hypothesis HPl : length P = cnpts c.
+Hypothesis HPd : Forall (fun pt : list Q => length pt = d) P.
+Hypothesis Hd : pdim P = d.
+
+Theorem C01_eval_spline u :
+  cW c = None -> kvalid1 (ckv c) u = true ->
+  exists v, curve_eval1 c u = Ok v /\
+            Forall2 Qeq v (curve_spec (kvec (ckv c)) (cdeg c) d P u).
+Proof.
+  intros HW Hv. unfold cdeg, cnpts in *.
+  destruct (basis_row_spec (ckv c) (kdeg (ckv c)) u W (le_n _) Hv) as (r & Hr & Hl & Hn).
+  unfold curve_eval1. rewrite HP, HW. unfold cdeg. rewrite rbasis_row_none, Hr. cbn [bind].
+  eexists. split; [reflexivity|]. rewrite Hd.
+  apply Forall2_Qeq_nth.
+  - rewrite (lincomb_length d r P HPd). unfold curve_spec. rewrite map_length, seq_length. reflexivity.
+  - rewrite (lincomb_length d r P HPd). intros kk Hk.
+    rewrite (lincomb_nth d kk Hk r P HPd).
+    unfold curve_spec. rewrite nth_map_seq by exact Hk.
+    unfold curve_spec1. rewrite npts_of_knpts.
+    assert (HrP : length r = length P) by lia.
+    rewrite (qsum_map2_seq (B := list Q) (fun x pt => x * nth kk pt 0) [] r P HrP).
+    rewrite Hl. apply qsum_map_ext. intros i Hi. apply in_seq in Hi.
+    rewrite (Hn i) by lia. rewrite coord_nth. reflexivity.
+Qed.
+
+Theorem C01_eval_rational Wt u :
+  cW c = Some Wt -> length Wt = cnpts c -> Forall (fun w => 0 < w) Wt ->
+  kvalid1 (ckv c) u = true ->
+  exists v, curve_eval1 c u = Ok v /\
+            Forall2 Qeq v (rational_spec (kvec (ckv c)) (cdeg c) d Wt P u).
+Proof.
+  intros HW HWl HWpos Hv. unfold cdeg, cnpts in *.
+  destruct (rbasis_row_rat_spec (ckv c) (kdeg (ckv c)) u Wt W (le_n _) Hv HWl HWpos)
+    as (r & Hr & Hl & Hn).
+  unfold curve_eval1. rewrite HP, HW. unfold cdeg. rewrite Hr. cbn [bind].
+  eexists. split; [reflexivity|]. rewrite Hd.
+  apply Forall2_Qeq_nth.
+  - rewrite (lincomb_length d r P HPd). unfold rational_spec. rewrite map_length, seq_length. reflexivity.
+  - rewrite (lincomb_length d r P HPd). intros kk Hk.
+    rewrite (lincomb_nth d kk Hk r P HPd).
+    unfold rational_spec. rewrite nth_map_seq by exact Hk.
+    unfold rational_spec1, weight_spec, curve_spec1. rewrite npts_of_knpts.
+    assert (HrP : length r = length P) by lia.
+    rewrite (qsum_map2_seq (B := list Q) (fun x pt => x * nth kk pt 0) [] r P HrP).
+    rewrite Hl.
+    set (U := kvec (ckv c)) in *. set (p := kdeg (ckv c)) in *. set (n := knpts (ckv c)) in *.
+    set (D := qsum (map (fun i => Nspec U p p i u * nth i Wt 0) (seq 0 n))).
+    rewrite (qsum_map_ext _ (fun i => / D *
+               (Nspec U p p i u * nth i (map2 (fun w x => w * x) Wt (coord kk P)) 0))).
+    + rewrite qsum_map_scale. unfold Qdiv. ring.
+    + intros i Hi. apply in_seq in Hi. rewrite (Hn i) by lia.
+      unfold Rspec. change (npts_of U p) with n.
+      rewrite (qsum_map_ext (fun k => nth k Wt 0 * Nspec U p p k u)
+                            (fun i => Nspec U p p i u * nth i Wt 0))
+        by (intros; ring).
+      fold D.
+      rewrite (nth_map2 _ 0 0 0) by (rewrite ?coord_length; lia).
+      rewrite coord_nth. unfold Qdiv. ring.
+Qed.
+
+Theorem C01_eval_outside u : kvalid1 (ckv c) u = false -> curve_eval1 c u = Err ValueError.
+Proof.
+  intro Hv. unfold curve_eval1. rewrite HP. unfold rbasis_row, basis_row.
+  rewrite (kspan_outside (ckv c) u Hv). reflexivity.
+Qed.
+
+Theorem C01_eval_seq us : curve_eval c us = mapM (curve_eval1 c) us.
+Proof. unfold curve_eval. rewrite HP. reflexivity. Qed.
+End CurveEval.
+
+(* ------------------------------------------------------------------ *)
+(* 11. C02: basis-function objects  f[i, j](u)                         *)
+(* ------------------------------------------------------------------ *)
+Lemma valid_second_ok p j jn : valid_second p j = Ok jn -> (jn <= p)%nat /\ jn = Z.to_nat j.
+Proof.
+  unfold valid_second. intro H.
+  destruct ((0 <=? j)%Z && (j <=? Z.of_nat p)%Z) eqn:E; [|discriminate].
+  apply andb_true_iff in E. destruct E as [A B].
+  apply Z.leb_le in A. apply Z.leb_le in B.
+  inversion H. split; [lia | reflexivity].
+Qed.
+
+Lemma valid_second_bad p j : ~ (0 <= j <= Z.of_nat p)%Z -> valid_second p j = Err IndexError.
+Proof.
+  intro H. unfold valid_second.
+  destruct ((0 <=? j)%Z && (j <=? Z.of_nat p)%Z) eqn:E; [exfalso|reflexivity].
+  apply andb_true_iff in E. destruct E as [A B].
+  apply Z.leb_le in A. apply Z.leb_le in B. apply H. lia.
+Qed.
+
+Lemma valid_first_int_ok n z :
+  (- Z.of_nat n <= z < Z.of_nat n)%Z -> valid_first n (IInt z) = Ok tt.
+Proof.
+  intros [A B]. unfold valid_first.
+  apply Z.leb_le in A. apply Z.ltb_lt in B. rewrite A, B. reflexivity.
+Qed.
+
+Lemma valid_first_int_bad n z :
+  ~ (- Z.of_nat n <= z < Z.of_nat n)%Z -> valid_first n (IInt z) = Err IndexError.
+Proof.
+  intro H. unfold valid_first.
+  destruct ((- Z.of_nat n <=? z)%Z && (z <? Z.of_nat n)%Z) eqn:E; [exfalso|reflexivity].
+  apply andb_true_iff in E. destruct E as [A B].
+  apply Z.leb_le in A. apply Z.ltb_lt in B. apply H. lia.
+Qed.
+
+Lemma py_index_bound n z :
+  (- Z.of_nat n <= z < Z.of_nat n)%Z ->
+  (Z.to_nat (if (z <? 0)%Z then (z + Z.of_nat n)%Z else z) < n)%nat.
+Proof. intro H. destruct (Z.ltb_spec z 0); lia. Qed.
+
+Theorem C02_value k u j jn z :
+  WF (kvec k) (kdeg k) -> kvalid1 k u = true ->
+  valid_second (kdeg k) j = Ok jn ->
+  (- Z.of_nat (knpts k) <= z < Z.of_nat (knpts k))%Z ->
+  exists v, func_eval k None (IInt z) j u = Ok [v] /\
+    v == Nspec (kvec k) (kdeg k) jn
+           (Z.to_nat (if (z <? 0)%Z then (z + Z.of_nat (knpts k))%Z else z)) u.
+Proof.
+  intros W Hv Hj Hz.
+  destruct (valid_second_ok _ _ _ Hj) as [Hjn _].
+  destruct (basis_row_spec k jn u W Hjn Hv) as (r & Hr & Hl & Hn).
+  unfold func_eval. rewrite (valid_first_int_ok _ _ Hz). cbn [bind].
+  rewrite Hj. cbn [bind]. rewrite rbasis_row_none, Hr. cbn [bind]. unfold select.
+  eexists. split; [reflexivity|].
+  apply Hn. apply py_index_bound. exact Hz.
+Qed.
+
+Theorem C02_value_rational k Wt u j jn z :
+  WF (kvec k) (kdeg k) -> kvalid1 k u = true ->
+  length Wt = knpts k -> Forall (fun w => 0 < w) Wt ->
+  valid_second (kdeg k) j = Ok jn ->
+  (- Z.of_nat (knpts k) <= z < Z.of_nat (knpts k))%Z ->
+  exists v, func_eval k (Some Wt) (IInt z) j u = Ok [v] /\
+    v == Rspec (kvec k) (kdeg k) Wt jn
+           (Z.to_nat (if (z <? 0)%Z then (z + Z.of_nat (knpts k))%Z else z)) u.
+Proof.
+  intros W Hv HL HW Hj Hz.
+  destruct (valid_second_ok _ _ _ Hj) as [Hjn _].
+  destruct (rbasis_row_rat_spec k jn u Wt W Hjn Hv HL HW) as (r & Hr & Hl & Hn).
+  unfold func_eval. rewrite (valid_first_int_ok _ _ Hz). cbn [bind].
+  rewrite Hj. cbn [bind]. rewrite Hr. cbn [bind]. unfold select.
+  eexists. split; [reflexivity|].
+  apply Hn. apply py_index_bound. exact Hz.
+Qed.
+
+Theorem C02_bad_index k Wo u j z :
+  ~ (- Z.of_nat (knpts k) <= z < Z.of_nat (knpts k))%Z ->
+  func_eval k Wo (IInt z) j u = Err IndexError.
+Proof.
+  intro H. unfold func_eval. rewrite (valid_first_int_bad _ _ H). reflexivity.
+Qed.
+
+Theorem C02_bad_degree k Wo i u j :
+  ~ (0 <= j <= Z.of_nat (kdeg k))%Z -> valid_first (knpts k) i = Ok tt ->
+  func_eval k Wo i j u = Err IndexError.
+Proof.
+  intros H Hi. unfold func_eval. rewrite Hi. cbn [bind].
+  rewrite (valid_second_bad _ _ H). reflexivity.
+Qed.
+
+Theorem C02_outside k Wo i u j jn :
+  valid_first (knpts k) i = Ok tt -> valid_second (kdeg k) j = Ok jn ->
+  kvalid1 k u = false -> func_eval k Wo i j u = Err ValueError.
+Proof.
+  intros Hi Hj Hv. unfold func_eval. rewrite Hi. cbn [bind]. rewrite Hj. cbn [bind].
+  unfold rbasis_row, basis_row. rewrite (kspan_outside k u Hv). reflexivity.
+Qed.
+
+(* C02 properties of the VALUES the model returns (sum to one, non-negative, at most one) *)
+Theorem C02_row_unity k j u r :
+  WF (kvec k) (kdeg k) -> (j <= kdeg k)%nat -> kvalid1 k u = true ->
+  basis_row k j u = Ok r -> qsum r == 1.
+Proof.
+  intros W Hj Hv Hr.
+  destruct (basis_row_spec k j u W Hj Hv) as (r' & Hr' & Hl & Hn).
+  rewrite Hr in Hr'. inversion Hr'; subst r'. clear Hr'.
+  assert (Hin : in_range (kvec k) (kdeg k) u = true) by (rewrite <- kvalid1_in_range; exact Hv).
+  rewrite <- (Nspec_unity_deg (kvec k) (kdeg k) W u Hin j Hj). rewrite npts_of_knpts.
+  rewrite <- (qsum_map_ext (fun i => nth i r 0) _ (seq 0 (knpts k)))
+    by (intros i Hi; apply in_seq in Hi; apply Hn; lia).
+  rewrite <- Hl. clear. 
+  assert (E : map (fun i => nth i r 0) (seq 0 (length r)) = r).
+  { induction r as [|x r IH]; [reflexivity|].
+    cbn [length seq map nth]. rewrite <- seq_shift, map_map. cbn [nth]. rewrite IH. reflexivity. }
+  rewrite E. reflexivity.
+Qed.
+
+Theorem C02_row_bounds k j u r i :
+  WF (kvec k) (kdeg k) -> (j <= kdeg k)%nat -> kvalid1 k u = true ->
+  basis_row k j u = Ok r -> (i < knpts k)%nat -> 0 <= nth i r 0 <= 1.
+Proof.
+  intros W Hj Hv Hr Hi.
+  destruct (basis_row_spec k j u W Hj Hv) as (r' & Hr' & Hl & Hn).
+  rewrite Hr in Hr'. inversion Hr'; subst r'. clear Hr'.
+  assert (Hin : in_range (kvec k) (kdeg k) u = true) by (rewrite <- kvalid1_in_range; exact Hv).
+  rewrite (Hn i Hi). split.
+  - apply Nspec_nonneg; assumption.
+  - apply Nspec_le_1; assumption.
+Qed.
+
+(* ------------------------------------------------------------------ *)
+(* 12. non-vacuity: the hypotheses of the main theorems are satisfiable *)
+(*     (interior node, the umax node, a rational curve in dimension 2)  *)
+(* ------------------------------------------------------------------ *)
+Definition ex_kv : kv := mkkv [0; 0; 0; 1#2; 1; 1; 1] 2.
+Definition ex_P : list (list Q) := [[0; 0]; [1; 2]; [3; 1]; [4; 0]].
+Definition ex_W : list Q := [1; 2; 1#2; 1].
+Definition ex_curve : curve := mkcurve ex_kv (Some ex_P) (Some ex_W).
+
+Example ex_hyps :
+  WF (kvec ex_kv) (kdeg ex_kv) /\ kvalid1 ex_kv (1#3) = true /\ kvalid1 ex_kv 1 = true /  length ex_P = cnpts ex_curve /\ Forall (fun pt : list Q => length pt = 2%nat) ex_P /  pdim ex_P = 2%nat /\ length ex_W = cnpts ex_curve /\ Forall (fun w => 0 < w) ex_W /  valid_second (kdeg ex_kv) 1 = Ok 1%nat.
+Proof.
+  repeat split; try reflexivity;
+    repeat (constructor; try reflexivity).
+Qed.
+
+Example ex_rational_umax :
+  exists v, curve_eval1 ex_curve 1 = Ok v /            Forall2 Qeq v (rational_spec (kvec ex_kv) 2 2 ex_W ex_P 1).
+Proof.
+  destruct ex_hyps as (W & _ & Hv & HPl & HPd & Hd & HWl & HWp & _).
+  exact (C01_eval_rational ex_curve ex_P 2 eq_refl W HPl HPd Hd ex_W 1 eq_refl HWl HWp Hv).
+Qed.
+
+Print Assumptions horner_red_correct.
+Print Assumptions Nloc_proper.
+Print Assumptions basis_row_spec.
+Print Assumptions Nspec_nonneg.
+Print Assumptions Nspec_unity.
+Print Assumptions Nspec_unity_deg.
+Print Assumptions Nspec_support.
+Print Assumptions Nspec_le_1.
+Print Assumptions lincomb_correct.
+Print Assumptions weight_pos.
+Print Assumptions weight_pos_deg.
+Print Assumptions rbasis_row_rat_spec.
+Print Assumptions C01_eval_spline.
+Print Assumptions C01_eval_rational.
+Print Assumptions C01_eval_outside.
+Print Assumptions C01_eval_seq.
+Print Assumptions C02_value.
+Print Assumptions C02_value_rational.
+Print Assumptions C02_bad_index.
+Print Assumptions C02_bad_degree.
+Print Assumptions C02_outside.
+Print Assumptions C02_row_unity.
+Print Assumptions C02_row_bounds.
+Print Assumptions ex_rational_umax.
